@@ -215,13 +215,14 @@ class LinearPolynomial(BaseDeferred):
         if typ is not int:  # pragma: no cover
             raise TypeError(f"Can only instantiate LinearPolynomial[int], not LinearPolynomial[{typ.__name__}]")
         super().__init__(typ)
-        if coeffs is None:
-            self.coeffs = {}
-        elif isinstance(coeffs, dict):
-            self.coeffs = coeffs
-        else:
-            self.coeffs = {}
-            for key, value in coeffs:
+        self.coeffs = {}
+        if coeffs is not None:
+            for key, value in (coeffs.items() if isinstance(coeffs, dict) else coeffs):
+                # A settled promise stands for the (still unknown) value it was settled
+                # with. Terms written before and after the promise was settled must
+                # be recognised as the same variable, or 'end - start' does not cancel.
+                while isinstance(key, Promise) and key.settled and isinstance(key.value, BaseDeferred) and not isinstance(key.value, LinearPolynomial):
+                    key = key.value
                 if key in self.coeffs:
                     self.coeffs[key] += value
                 else:
